@@ -38,6 +38,9 @@ MayReject == C.ws /\ (IF C.cw THEN \E j \in 1..m : GuardLess(VarNum(j), IAbs(Sum
 TinyMustReject == C.ws /\ (IF C.cw THEN \E j \in 1..m : VarNum(j) = 0 ELSE SumVar = 0)
 Rejectable == IF C.tiny THEN TinyMustReject ELSE MayReject
 MustRej == IF C.tiny THEN TinyMustReject ELSE MustReject
+DevNum(i, j) == X[i][j] * WS - SumWX(j)                  \* WS * (x - weighted mean)
+RawNum(i, j) == IF C.wm THEN DevNum(i, j) ELSE X[i][j] * WS          \* numerator of the transformed value times WS
+LegitBig == C.ws /\ \E i \in 1..n, j \in 1..m : IAbs(RawNum(i, j)) < 40000 /\ (RawNum(i, j) * RawNum(i, j)) \div 250000 >= (IF C.cw THEN VarNum(j) ELSE SumVar)
 T == C.Tq
 Bud(M) == 4 * (2 * (FMaxAbs(M) \div S) + 3)
 ColMeanNum(j) == ISumR([i \in 1..n |-> w[i] * T[i][j]], n)              \* WS * mean of column j of T, in units 1/S
@@ -64,7 +67,9 @@ First(s) == LET bad == {i \in 1..Len(s) : s[i] # "ok"} IN IF bad = {} THEN "ok" 
 Verdict == IF C.raised /\ ~Rejectable THEN <<"rejected", "valid-data-rejected">>
            ELSE IF ~C.raised /\ MustRej THEN <<"rejected", "variance-below-tolerance-accepted">>
            ELSE IF C.raised THEN <<"ok">>
-           ELSE IF FMaxAbs(T) > 1000 * S THEN <<"inconclusive", "magnitude">>
+           \* outputs beyond the fixed-point range are legitimate only when the exact scale of the INPUT is tiny:
+           \* some (x - mean)^2 exceeds 500^2 times the variance the data is divided by (all in units of WS^2)
+           ELSE IF FMaxAbs(T) > 1000 * S THEN (IF LegitBig THEN <<"inconclusive", "magnitude">> ELSE <<"rejected", "transformed-data-out-of-range-or-not-finite">>)
            ELSE LET c == First(<<MeanClause, VarClause, OffClause, RecClause, NewClause, RouteClause>>) IN
                 IF c = "ok" THEN <<"ok">> ELSE <<"rejected", c>>
 Emit == PrintT(ToJson([k |-> "V", id |-> C.id, v |-> Verdict, ctx |-> [flags |-> <<C.wm, C.ws, C.cw>>, weighted |-> C.w # <<>>, rejected |-> C.raised]]))
